@@ -208,7 +208,7 @@ def gen_posix(rng, k3_domain=False):
         if r < .8:
             return ('J', first + rng.randint(1, 28))
         return ('N', first + rng.randint(0, 27))
-    stdoff = rng.choice([-43200, -36000, -18000, -12600, -3600, 0, 3600, 7200, 19800, 20700, 34200, 36000, 43200, 45900])
+    stdoff = rng.choice([-43200, -36000, -18000, -17762, -12600, -3600, 0, 1172, 3600, 7200, 19800, 20700, 34200, 36000, 43200, 45900])
     saving = rng.choice([1800, 3600, 3600, 3600, 7200])
     std = rng.choice(['EST', 'CET', 'AEST', 'NST', 'AAA', 'WET', 'XYZST'])
     dst = rng.choice(['EDT', 'CEST', 'AEDT', 'NDT', 'BBB', 'WEST', 'XYZDT'])
@@ -220,6 +220,13 @@ def gen_posix(rng, k3_domain=False):
         if etime - saving < 0:
             etime = saving + rng.choice([0, 3600])
     return PZ.PosixZone(std, stdoff, dst, stdoff + saving, rule(a_month), stime, rule(b_month), etime)
+
+
+def subminute(z):
+    """offsets with a seconds part: POSIX allows [+-]hh:mm:ss, dateutil's TZ-string reader only takes hh[:mm] / hhmm and
+    rejects the string with ValueError.  Outside the quantifier of C08 ("offsets incl. half-hour and two-hour savings");
+    the checks accept either a ValueError or a zone that is then held to the model like any other."""
+    return bool(z.stdoff % 60 or z.dstoff % 60)
 
 
 def k3_applies(z):
